@@ -85,29 +85,29 @@ def run(ctx):
     # ---------------------------------------------------------------- A. theorems + sensitivity
     ALL = ("TypeOK", "Residue", "BodySeesOwn", "Depth", "Mutex", "Progress")
     jobs = {
-        "ps_locked": lambda: run_tlc("PatchSection", _ps_cfg(3, 2, True, invs=ALL), scratch=sc),
+        "ps_locked": lambda: run_tlc("PatchSection", _ps_cfg(3, 2, True, invs=ALL), scratch=sc, workers=2),
         "ps_nolock": lambda: run_tlc("PatchSection", _ps_cfg(3, 1, False, invs=("Residue",)), scratch=sc,
-                                     expect_fail=True),
+                                     expect_fail=True, workers=2),
         "ps_nofinally": lambda: run_tlc("PatchSection", _ps_cfg(2, 1, True, ror=False, invs=("Residue",)),
-                                        scratch=sc, expect_fail=True),
+                                        scratch=sc, expect_fail=True, workers=1),
         "gl_ref": lambda: run_tlc("Globals", _gl_cfg([], 3, ("HistoryIndependent", "ResidueFree", "CacheShape")),
-                                  scratch=sc),
+                                  scratch=sc, workers=2),
         "gl_font": lambda: run_tlc("Globals", _gl_cfg(["FontCacheKeyedByFontOnly"], 3, ("HistoryIndependent",)),
-                                   scratch=sc, expect_fail=True),
+                                   scratch=sc, expect_fail=True, workers=1),
         "gl_aes": lambda: run_tlc("Globals", _gl_cfg(["PermanentAesPatch"], 3, ("HistoryIndependent",)),
-                                  scratch=sc, expect_fail=True),
+                                  scratch=sc, expect_fail=True, workers=1),
         "gl_aes_res": lambda: run_tlc("Globals", _gl_cfg(["PermanentAesPatch"], 3, ("ResidueFree",)),
-                                      scratch=sc, expect_fail=True),
+                                      scratch=sc, expect_fail=True, workers=1),
     }
     # enumeration of interleavings (history variable): each complete state is one schedule
     enum = [(2, 1), (2, 2), (3, 1)]
     for k, c in enum:
         jobs[f"enum{k}{c}"] = (lambda k=k, c=c: run_tlc(
             "PatchSection", _ps_cfg(k, c, False, raises=False, track=True), scratch=sc,
-            dump=sc / f"sched-{k}-{c}.dump", heap="6g"))
+            dump=sc / f"sched-{k}-{c}.dump", heap="6g", workers=4))
     hist_len = 3 if ctx.thorough else 2
-    jobs["gl_enum"] = lambda: run_tlc("Globals", _gl_cfg([], hist_len), scratch=sc, dump=sc / "hist.dump")
-    with ThreadPoolExecutor(4) as ex:
+    jobs["gl_enum"] = lambda: run_tlc("Globals", _gl_cfg([], hist_len), scratch=sc, dump=sc / "hist.dump", workers=1)
+    with ThreadPoolExecutor(6) as ex:
         futs = {n: ex.submit(f) for n, f in jobs.items()}
         res = {n: f.result() for n, f in futs.items()}
     lap("TLC theorem / sensitivity / enumeration runs")
